@@ -54,5 +54,11 @@ def combined_spec(pid, modnames, props_prefix, extra_props=()):
     sp._parts = parts
     sp.parts = lambda: sp._parts
     sp.part_modules = [n for n, _ in mods]
+    subs = [m.SPEC for _, m in mods if getattr(m, "SPEC", None) is not None]
+
+    def extra(rep, tier, rng, broken):
+        for s_ in subs:          # every family's own stages (translator ties, table obligations, model self tests)
+            s_.extra_stages(rep, tier, rng, broken)
+    sp.extra_stages = extra
     sp.claim_texts = texts
     return sp
